@@ -38,6 +38,7 @@ RespChunks == 2          \* a response is written in two pieces ("response being
 DevNames == { "NoWake",             \* no wake-up connection (e.g. connect to the unmapped 0.0.0.0 fails)     -> Live_RunReturns
               "JoinWorkers",        \* closure waits for the handlers before returning                       -> Live_RunReturns
               "BoundedQueue",       \* execute blocks until a worker is idle (rendezvous channel, saturated pool) -> Live_RunReturns
+              "BoundedQueueCap",    \* bounded job channel (one slot per worker): execute AND stop block while it is full -> Live_RunReturns
               "ReturnBeforeJoin",   \* run returns without joining the accept thread                          -> Inv_PortFree
               "ListenerLeak",       \* listener not closed when the closure ends                              -> Inv_PortFree
               "DenyWhenSaturated",  \* acceptor drops a connection when no worker is idle                     -> Inv_ServingBefore
@@ -115,6 +116,13 @@ Sig_Send ==
   /\ sent' = TRUE
   /\ IF rt = "threaded" THEN chan' = TRUE /\ flag' = flag ELSE flag' = TRUE /\ chan' = chan
   /\ UNCHANGED <<cfgVars, aVars, spc, kVars, pVars, cs, cVars, hVars>>
+
+\* the signal is sent a second time.  tokio: cancel() is idempotent (nothing changes).  threaded: another message
+\* is put into the channel; once Sig_Recv has taken the first one nobody ever reads the channel again.
+Sig_Again ==
+  /\ sent /\ rt = "threaded" /\ ~chan /\ spc # "recv"
+  /\ chan' = TRUE
+  /\ UNCHANGED <<cfgVars, aVars, spc, sent, flag, kVars, pVars, cs, cVars, hVars>>
 
 (* ------------------------------------------------------------------ clients *)
 Cli_Connect(c) ==
@@ -221,6 +229,7 @@ Flag_Read ==
 Dispatch ==
   /\ apc = "dispatch"
   /\ ("BoundedQueue" \in Dev /\ rt = "threaded") => Idle
+  /\ ("BoundedQueueCap" \in Dev /\ rt = "threaded") => Len(queue) < nw
   /\ IF rt = "tokio"
        THEN /\ cs' = [cs EXCEPT ![cur] = "read"] /\ busy' = busy \cup {cur} /\ queue' = queue
        ELSE IF "DenyWhenSaturated" \in Dev /\ ~Idle
@@ -243,6 +252,7 @@ Loop_Exit ==
 \* thread_pool.stop(): ONE Shutdown message behind every job already dispatched; recovery thread detached
 Pool_Stop ==
   /\ apc = "stop"
+  /\ "BoundedQueueCap" \in Dev => Len(queue) < nw
   /\ apc' = "drop"
   /\ IF "StopDropsQueue" \in Dev
        THEN /\ queue' = <<STOP>>
@@ -310,7 +320,7 @@ Handler == \E c \in Conns : H_Read(c) \/ H_Finish(c) \/ H_Write(c) \/ H_Eof(c)
 Client == \E c \in Clients : \/ Cli_Connect(c) \/ Cli_SendHalf(c) \/ Cli_Close(c)
                              \/ \E k \in Kinds : Cli_SendRest(c, k)
 
-Next == Sig_Send \/ Acceptor \/ RunThread \/ Pool \/ Handler \/ Client
+Next == Sig_Send \/ Sig_Again \/ Acceptor \/ RunThread \/ Pool \/ Handler \/ Client
 
 \* Fairness ONLY for the accept loop and the thread that called run.  No assumption on clients, on
 \* the signal, on workers or on handlers: a handler may block forever.  (tokio's Loop_Exit is enabled
@@ -373,6 +383,9 @@ Never_ClientBeforeWake == ~(rt = "threaded" /\ spc = "wake" /\ apc = "exit" /\ c
 Never_WakeDuringDispatch == ~(rt = "threaded" /\ apc = "dispatch" /\ Len(backlog) > 0 /\ backlog[Len(backlog)] = WAKE)
 \* "all workers busy, a job waiting, and run has returned"
 Never_ReturnedSaturated == ~(rt = "threaded" /\ spc = "returned" /\ Cardinality(busy) = nw /\ \E c \in Clients : cs[c] = "queued")
+\* "3 x pool connections": run has returned while the pool is fully occupied and 2 x pool jobs are waiting
+Never_ReturnedDeepQueue == ~(rt = "threaded" /\ spc = "returned" /\ Cardinality(busy) = nw
+                             /\ Cardinality({c \in Clients : cs[c] = "queued"}) >= 2 * nw)
 \* tokio: a connection is accepted although the token is already cancelled
 Never_AcceptAfterCancel == ~(rt = "tokio" /\ flag /\ apc = "dispatch")
 =============================================================================
